@@ -159,7 +159,7 @@ func (w *Worker) fmtArg(fr *frame, o *fmtOut, verb byte, flags string, prec int,
 	// error / Stringer (for the verbs that honour them)
 	if verb == 'v' || verb == 's' || verb == 'q' || verb == 'w' {
 		for _, mname := range []string{"Error", "String"} {
-			if m := w.prog.LookupMethod(arg.T, nil, mname); m != nil && m.Signature.Params().Len() == 0 && m.Signature.Results().Len() == 1 {
+			if m := w.findMethod(arg.T, mname); m != nil && m.Signature.Params().Len() == 0 && m.Signature.Results().Len() == 1 {
 				if b, ok := m.Signature.Results().At(0).Type().Underlying().(*types.Basic); ok && b.Kind() == types.String {
 					if p, isPtr := arg.V.(*Value); isPtr && p == nil {
 						o.str("<nil>")
@@ -380,7 +380,7 @@ func (w *Worker) fmtElem(fr *frame, o *fmtOut, verb byte, flags string, prec int
 	if verb == 'v' || verb == 's' {
 		if _, isIface := et.Underlying().(*types.Interface); !isIface {
 			for _, mname := range []string{"Error", "String"} {
-				if m := w.prog.LookupMethod(et, nil, mname); m != nil && m.Signature.Params().Len() == 0 && m.Signature.Results().Len() == 1 {
+				if m := w.findMethod(et, mname); m != nil && m.Signature.Params().Len() == 0 && m.Signature.Results().Len() == 1 {
 					if b, ok := m.Signature.Results().At(0).Type().Underlying().(*types.Basic); ok && b.Kind() == types.String {
 						if p, isPtr := e.(*Value); isPtr && p == nil {
 							o.str("<nil>")
@@ -497,4 +497,19 @@ func (w *Worker) parseFloat(fr *frame, s Str) Value {
 	w.ex.noteOnce("ParseFloat model: symbolic numerals are digit strings; bytes +-.eExXpPiInNaAfF_ in symbolic numerals are excluded by assumption")
 	w.assume(fr, smt.Not(someSpecial))
 	return Tuple{smt.FPC(0), mkErr(fr, Str{S: "strconv.ParseFloat: parsing: invalid syntax"})}
+}
+
+// findMethod returns the (exported) method name of type t, or nil.
+func (w *Worker) findMethod(t types.Type, name string) *ssa.Function {
+	if t == nil {
+		return nil
+	}
+	if _, ok := t.Underlying().(*types.Interface); ok {
+		return nil
+	}
+	sel := w.prog.MethodSets.MethodSet(t).Lookup(nil, name)
+	if sel == nil {
+		return nil
+	}
+	return w.prog.MethodValue(sel)
 }
